@@ -725,6 +725,40 @@ func runC07(c *fw.Case) {
 				}
 			}
 		}
+		{
+			// one name may serve a one-argument and a two-argument function of the same operand type
+			dual := eval.NewDefaultCtx()
+			_ = dual.SetFunc("dual", func(x int) int { return x + 1 })
+			_ = dual.SetFunc("dual", func(x, y int) int { return x*10 + y })
+			_ = dual.SetFunc("-", func(x int) int { return -x }) // a unary minus next to the built-in binary one
+			_ = dual.SetFunc("abs", func(x, y int) int { return x - y })
+			c.Eval(1)
+			desc := fmt.Sprintf("Eval(\"res\", dual(dual(c), -(c)) - abs(abs(c), c)) with c = col(%q) in a context holding one- and two-argument functions of the same name", ic.name)
+			exprs = append(exprs, desc)
+			cn := types.ColumnName(ic.name)
+			var res qframe.QFrame
+			if c.GuardFail("eval-ctx", desc, func() {
+				res = root.QF.Eval("res", qframe.Expr("-", qframe.Expr("dual", qframe.Expr("dual", cn), qframe.Expr("-", cn)), qframe.Expr("abs", qframe.Expr("abs", cn), cn)), eval.EvalContext(dual))
+			}) {
+				if res.Err != nil {
+					c.Fail("context-arity", "%s rejected: %v", desc, res.Err)
+				} else if got, oerr := model.ObserveGuard(res); oerr == nil {
+					gc := got.Col("res")
+					ok := gc != nil && gc.Kind == model.KInt
+					for r := 0; ok && r < n; r++ {
+						v := src.I[r]
+						a := v
+						if a < 0 {
+							a = -a
+						}
+						ok = gc.I[r] == ((v+1)*10+(-v))-(a-v)
+					}
+					if !ok {
+						c.Fail("context-arity", "%s computes other functions than the ones registered for each number of arguments", desc)
+					}
+				}
+			}
+		}
 		for _, nm := range []string{"onlyhere", "ui1"} {
 			c.Eval(1)
 			c.Nontrivial("ctx-unknown", nm, idKey(sh.IDs()))
